@@ -282,6 +282,8 @@ class Gen:
                 self.count('method_overload')
             else:
                 nm = self.method_name()
+                while nm == cname:          # a member function with the class's own name is a constructor
+                    nm = self.method_name()
             names['method'].append(nm)
             return ('method', t, nm, self.ret(tp, True), self.args(tp, True), r.random() < 0.5)
         if x < 0.65:
@@ -292,6 +294,8 @@ class Gen:
                 nm = r.choice(names['static'])
             else:
                 nm = self.method_name()
+                while nm == cname:
+                    nm = self.method_name()
             names['static'].append(nm)
             return ('static', t, nm, self.ret(tp, True), self.args(tp, True))
         if x < 0.78:
@@ -355,6 +359,12 @@ class Gen:
             self.count('function_overload')
         else:
             name = self.method_name() if r.random() < 0.3 else self.fresh(set(), METHOD_IDS)
+            # a function and a class / enum of one namespace with the same name would share one MATLAB file
+            for _ in range(20):
+                if name not in used_names:
+                    break
+                name = self.fresh(set(), METHOD_IDS)
+            used_names.add(name)
         scope.append(name)
         return ('fun', t, name, self.ret(tp), self.args(tp))
 
@@ -730,7 +740,12 @@ def text(toks, r: random.Random = None, style: str = 'plain'):
             if prev[0] == 'raw' and not prev[1].startswith('<') and style == 'comments':
                 out.append(r.choice(['', ' ', '\n', '\t ']))
             else:
-                out.append(gap(r, style, need))
+                g = gap(r, style, need)
+                # a token ending in '/' (operator/ and operator/=... end in '=' but '/' alone does) directly followed by a
+                # comment would itself spell a comment opener ('//' or '/*'): that is a different token sequence
+                if g[:1] == '/' and prev[1].endswith('/'):
+                    g = ' ' + g
+                out.append(g)
         out.append(t)
         prev = (k, t)
     out.append(gap(r, style, False))
